@@ -98,6 +98,7 @@ def main(tier, seed):
         run.cell('shape_class', c['shape'].split('|')[0].split(':')[0].split('.')[0])
         run.add(slim, r)
     pool.run_cases(light, 'vf.props.nameeng:run_case', timeout=60, batch=40, on_result=on, deadline=run.deadline)
+    nameeng.foreign_layer(run, PROP, light, tier, per_version=300 if tier == 'quick' else 5000)
     pool.run_cases(heavy, 'vf.props.nameeng:run_case', timeout=180, batch=2, on_result=on, deadline=run.deadline)
     return run.finish(
         rule='interface-focused templates (keyword calls to every parameter kind, lambdas called by keyword, methods with / and decorated first '
@@ -107,7 +108,7 @@ def main(tier, seed):
              'with at least one rename or introduced alias',
         assumptions=['the documented exceptions (self/cls-like first parameter of an undecorated or @classmethod method, *args/**kwargs, positional-only '
                      'parameters) may be renamed in the signature; nothing else that a caller can name'],
-        min_nontrivial=200, required_counters=['matcher_runs', 'identifier_pairs_checked'])
+        min_nontrivial=200, required_counters=['matcher_runs', 'foreign_outputs_compared', 'identifier_pairs_checked'])
 
 
 def replay(path):
